@@ -188,7 +188,7 @@ func (d *discharger) p1(o pob) string {
 		// D10 rand.Intn(len(x)) inside a loop that only runs when len(x) >= 1
 		if ip == "rand.Intn(len("+xp+"))" || ip == "rand.Int31n(len("+xp+"))" {
 			edges := an.EdgesWhere(fn, func(f an.Cmp) bool {
-				return f.Op == "<" && (f.R == "(c:3*len("+xp+"))" || f.R == "(len("+xp+")*c:3)" || f.R == "len("+xp+")") && strings.HasPrefix(f.L, "phi:")
+				return f.Op == "<" && (f.R == "(c:3*len("+xp+"))" || f.R == "(len("+xp+")*c:3)" || f.R == "len("+xp+")") && strings.HasPrefix(f.L, "phi")
 			})
 			if an.Guarded(fn, o.in, edges) {
 				return "D10 index is rand.Intn(len(x)) inside a loop whose guard i < k*len(x) (i >= 0) implies len(x) >= 1"
@@ -463,11 +463,11 @@ func lengthPreserving(f *ssa.Function) bool {
 			case p == "make:slice(len($0))":
 			case strings.HasPrefix(p, "mul(diff($1,$2),"), strings.HasPrefix(p, "mul(make:slice(len(diff($1,$2))),"):
 			case p == "make:slice(len(diff($1,$2)))", p == "diff($1,$2)":
-			case strings.HasPrefix(p, "phi:"):
+			case strings.HasPrefix(p, "phi"):
 				if phi, ok := v.(*ssa.Phi); ok {
 					for _, e := range phi.Edges {
 						ep := an.Path(e)
-						if ep != "diff($1,$2)" && ep != "make:slice(len(diff($1,$2)))" && !strings.HasPrefix(ep, "phi:") {
+						if ep != "diff($1,$2)" && ep != "make:slice(len(diff($1,$2)))" && !strings.HasPrefix(ep, "phi") {
 							return false
 						}
 					}
